@@ -35,17 +35,29 @@ def main():
         if rc != 0:
             meta["valid"] = False; meta["why"] = "patch does not apply: " + o[-300:]
             print(name, "INVALID (apply)"); save(name, diff, out, k, meta); continue
+        # extra dev-dependencies / features a demo needs (never part of the diff itself)
+        devdeps = meta["agent_meta"].get("dev_dependencies") or []
+        demo_src = open(os.path.join(out, f"m{k}_demo.rs")).read()
+        feat = " --features borsh" if 'feature = "borsh"' in demo_src else ""
+        def add_devdeps():
+            if devdeps:
+                ct = open(os.path.join(wt, "Cargo.toml")).read()
+                ct = ct.replace("[dev-dependencies]\n", "[dev-dependencies]\n" + "\n".join(devdeps) + "\n")
+                open(os.path.join(wt, "Cargo.toml"), "w").write(ct)
         rc, o = sh("cargo test --offline 2>&1 | grep 'test result' | head -1", wt, env)
         meta["suite_with_change"] = o.strip()
         suite_ok = "94 passed; 0 failed" in o
         os.makedirs(os.path.join(wt, "tests"), exist_ok=True)
         shutil.copy(os.path.join(out, f"m{k}_demo.rs"), os.path.join(wt, "tests", "demo.rs"))
-        rc1, o1 = sh("cargo test --offline --test demo 2>&1 | grep -E 'test result|error' | head -3", wt, env)
+        add_devdeps()
+        rc1, o1 = sh(f"cargo test --offline{feat} --test demo 2>&1 | grep -E 'test result|error' | head -3", wt, env)
         demo_fails_with = ("FAILED" in o1 or "failed" in o1) and "error[" not in o1
         meta["demo_with_change"] = o1.strip()
         sh("git checkout -- .", wt)
-        rc2, o2 = sh("cargo test --offline --test demo 2>&1 | grep -E 'test result|error' | head -3", wt, env)
-        demo_passes_without = "test result: ok" in o2
+        add_devdeps()
+        rc2, o2 = sh(f"cargo test --offline{feat} --test demo 2>&1 | grep -E 'test result|error' | head -3", wt, env)
+        sh("git checkout -- .", wt)
+        demo_passes_without = "test result: ok" in o2 and " 0 passed" not in o2
         meta["demo_without_change"] = o2.strip()
         shutil.rmtree(os.path.join(wt, "tests"), ignore_errors=True)
         meta["valid"] = bool(suite_ok and demo_fails_with and demo_passes_without)
